@@ -90,7 +90,8 @@ func constrainUnions(schema *jsonschema.Schema) {
 
 		var criteria []*jsonschema.Schema
 		for property := definition.Properties.Oldest(); property != nil; property = property.Next() {
-			if strings.HasPrefix(property.Key, "by_") {
+			// the builder selectors have a criterion that is not called `by_…`
+			if strings.HasPrefix(property.Key, "by_") || property.Key == "generated_from_disjunction" {
 				criteria = append(criteria, &jsonschema.Schema{Required: []string{property.Key}})
 			}
 		}
